@@ -228,6 +228,10 @@ func (s *scriptStore) Watch(ctx context.Context, ch chan<- configapi.Transaction
 var weirdPaths = []string{"/a", "/a/b", "/a[k=v]/b", "/a[", "/a[k", "/a[k=", "/a[k=v", "/a[=v]", "/a[k=]", "/[k=v]", "/a]b", "/a\\[b", "/a\\/b/c",
 	"/a[k=v][l=w]/c", "/a[k=v]x", "/a[k=x/y]/z", "/a//b", "", "/", "a", "/a[k=v\\]]", "/a[k\\==v]", "/a\\", "/a[k=v]/", "/é[k=ü]", "/a[k=v]]", "/a[[k=v]"}
 
+// well-formed paths (the textual form utils.StrPath produces) whose list keys hold the characters of the path syntax
+var keyPaths = []string{"/interfaces/interface[name=eth1/0]/config/mtu", "/a[k=x/y/z]", "/a[k=v=w]/b", "/a[k=x[y]/b", "/a[k=x\\]y]/b",
+	"/a[k=x\\\\y]/b", "/a[k=/]/b", "/a[j=1/2][k=3/4]/c", "/a[k=Ethernet1/0/1]/b[l=x/y]/c", "/a[k==]/b", "/a[k=[[]/b", "/a\\/b/c"}
+
 func genPath(r *rand.Rand) string {
 	if r.Intn(3) == 0 {
 		return env.Pick(r, weirdPaths)
@@ -394,6 +398,23 @@ func domLoop(r *rand.Rand, seed int64, n int, corpus string) {
 		}
 	}
 
+	// every odd path and every well-formed path with syntax characters inside keys, alone in a change map that succeeds
+	for _, pth := range weirdPaths {
+		for _, del := range []bool{false, true} {
+			runOne(fmt.Sprintf("%d:x%d", seed, cnt), "set", "valid-oddpaths", true, []scriptEvent{{state: 3, sync: 1}}, []row{{"t1", pth, del}}, uint64(1+cnt))
+			cnt++
+		}
+	}
+	for i, pth := range keyPaths {
+		sync := i%2 == 0
+		sy := int32(0)
+		if sync {
+			sy = 1
+		}
+		runOne(fmt.Sprintf("%d:x%d", seed, cnt), "set", "valid-keypaths", sync, []scriptEvent{{state: 0, sync: sy}, {state: 3, sync: sy}}, []row{{"t1", pth, i%3 == 0}, {"t2", "/foo", false}}, uint64(1+cnt))
+		cnt++
+	}
+
 	// generated: histories delivered under a random placement (replay h[k-1], then h[j..]), plus a malformed stream
 	for i := 0; i < n; i++ {
 		sync := r.Intn(2) == 0
@@ -475,6 +496,12 @@ func domLoop(r *rand.Rand, seed int64, n int, corpus string) {
 		}
 		if mutate != nil {
 			label += "-oddpaths"
+		} else if kind == "set" && r.Intn(6) == 0 {
+			m := 1 + r.Intn(3)
+			for x := 0; x < m; x++ {
+				mutate = append(mutate, row{env.Pick(r, []string{"t1", "t2"}), env.Pick(r, keyPaths), r.Intn(3) == 0})
+			}
+			label += "-keypaths"
 		}
 		runOne(fmt.Sprintf("%d:l%d", seed, i), kind, label, sync, evs, mutate, uint64(1+r.Intn(1000)))
 	}
